@@ -218,7 +218,7 @@ CLAIMS = {
                  "reported segment exceeds target + allowance after rounding), too_long_rejected (a parsed segment breaking the rule rejects the playlist), "
                  "rule_whole_seconds. Tie: 1 ns steps around every x.5 boundary for targets up to 2^64-1 s and allowances {none,0,1,2 s, sub-second}, through the "
                  "builder (exact Durations, incl. magnitudes above 2^24 s where float rounding used to fail) and through text with the allowance configured on "
-                 "the parsing builder; acceptance and reported durations must agree between library and model and match an independent integer formula."),
+                 "the parsing builder; acceptance and reported durations must agree between library and model and match an independent integer formula. String level (Props/C08Text.lean): durations_text - for every accepted TEXT no segment handed out is longer (rounded) than target + allowance."),
         "design_ref": "DESIGN.md §7 C09",
         "note": "Text durations are exact below 2^23 s with <= 9 fractional digits (emulated f64 path, validated by the run).",
     },
@@ -244,7 +244,7 @@ CLAIMS = {
                  "slide_stable (dropping k segments, raising the media sequence by k and restating the first byte range leaves every remaining segment's "
                  "number, URI, byte range, keys and effective IV unchanged). Tie: for random live histories EVERY window [k,m) is rendered as a server would "
                  "and parsed by library and model; each history segment must have one identity (number, URI, resolved range, key set with effective IVs) in "
-                 "all windows; generated playlists are cut at every line boundary (rejected or prefix; never accepted right behind a segment tag)."),
+                 "all windows; generated playlists are cut at every line boundary (rejected or prefix; never accepted right behind a segment tag). String level (Props/C16Text.lean): append_stable_text - if a text ending at a line boundary is accepted and the same text with more text appended (not restating MEDIA-SEQUENCE) is accepted too, the segments of the shorter are a prefix of the segments of the longer (numbers and content included); rawLines_append, items_append_ok."),
         "design_ref": "DESIGN.md §7 C16",
         "note": "slide_stable is stated on the build loop (parsed segments -> reported segments); that the restated keys give the same parsed key sets is C06's refinement theorem.",
     },
@@ -281,7 +281,7 @@ CLAIMS = {
                  "= [prev.end, prev.end+len) saturating at 2^64-1, explicit = as written), not_chained_rejected, resolved_range_text + byteRange_roundtrip "
                  "(a resolved range is written n@start and re-parses to itself), map_range_verbatim. Tie: every sequence of <= 4 (5) segments over 2 URIs x "
                  "{none, explicit, implicit}, random boundary values, MAP ranges, on the real library and the model (uri/range/map-range per segment must "
-                 "agree) and against an independent Python spec incl. re-parse of the written text."),
+                 "agree) and against an independent Python spec incl. re-parse of the written text. String level (Props/C08Text.lean): ranges_text - the same for every TEXT accepted by any parse entry point (the classifier only returns ranges that fit 64 bits)."),
         "design_ref": "DESIGN.md §7 C08",
         "note": "Theorem ranges_lines is stated over typed lines with byte-range values <= 2^64-1 (what ByteRange.parse guarantees).",
     },
